@@ -152,7 +152,8 @@ Definition ers_ctx (sn : ers_snapshot) : option sync_ctx :=
       | Some freq =>
           match sync_gate sn freq with
           | Some _ => None
-          | None => match build_ctx sn e freq with Ok cx => Some cx | _ => None end
+          | None => if f_list (sn_faults sn) then None
+                    else match build_ctx sn e freq with Ok cx => Some cx | _ => None end
           end
       end
   end.
